@@ -52,7 +52,7 @@ func VerifC08_Placement() {
 	vNativeReset()
 	mode := vInt("mode", 0, 2)
 	um := vInt("um", 0, 2)
-	place := vInt("place", 0, 13)
+	place := vInt("place", 0, 14)
 	form := vInt("form", 0, 3)
 	u, name := unknownToken(form)
 	v := positional("v")
@@ -119,6 +119,9 @@ func VerifC08_Placement() {
 		vAssume(mode == 1 && form == 2)
 		u, name = "-yfz", "y"
 		args, want = []string{u}, []string{u}
+	case 14:
+		// the same unknown token twice in a row: both stay
+		args, want = []string{u, u, q}, []string{u, u, q}
 	case 13:
 		// given at a command, in front of a sub command token: travels on with it
 		args, want = []string{"cmd", u, "--cmdopt", "csub", q}, []string{u, q}
